@@ -20,11 +20,8 @@ from ..specs.evm import SMTLIB, NEUTRAL, ABSORBING
 TECHNIQUE = ("table extraction of the connector registry and comparison with an SMT-LIB reference; interval analysis of "
              "argument-list lengths at connector construction sites; exhaustive abstract evaluation of the simplifiers "
              "over the finite domain of argument shapes")
-LEVEL_TEXT = ("Decides that every connector used is registered with an arity and commutativity flag consistent with "
-              "SMT-LIB, that the renderer prints the registered symbol verbatim for every kind of formula, that "
-              "structural equality permutes arguments only for order-independent symbols, that no simplifier can build "
-              "an empty connective, and — by evaluating each simplifier's AST on every combination of argument shapes "
-              "up to three arguments — that the simplified formula has the same truth table as the unsimplified one.")
+LEVEL_TEXT = ("Decides that every connector used is registered with an arity and commutativity flag consistent with SMT-LIB, that the renderer prints the registered symbol verbatim for every kind of formula, that structural equality permutes arguments only for order-independent symbols, that no simplifier can build an empty connective, and — by evaluating each simplifier's AST on every combination of argument shapes up to three arguments — that the simplified formula has the same truth table as the unsimplified one."
+              ' Added in seeding rounds 8-9: a simplifier leaves its operands unchanged (fresh operands per application, compared before and after) and negated integer comparisons (ternary distinct) are in the shape family (C18.d).')
 EXPLANATION = ("Shapes: literal True, literal False, opaque boolean atoms p,q, a nested node of the same connective over "
                "atoms, a nested `not`. Premise (checked syntactically): simplifiers inspect arguments only through "
                "type(), ==, .connector_name and .arguments, so shapes are exact representatives.")
